@@ -1,6 +1,7 @@
 import MesaModel.Proofs.StepCounter
 import MesaModel.Proofs.StepMro
 import MesaModel.Proofs.StepNested
+import MesaModel.Proofs.StepBinding
 /-!
 # C05 — every `step()` call advances `model.steps` by exactly one, before user code
 
@@ -24,25 +25,125 @@ return the calls in the order they start, and the theorems say they are ordinary
 -/
 namespace Mesa.Steps
 
-/-- One call, one increment: for every hierarchy, every argument list, every prior state —
-    also when the user chain raises `TypeError` half way. -/
-theorem C05_increments_exactly_once (i : Inst) (args : List Int) :
-    (callStep i args).1.steps = i.steps + 1 := rfl
+/-- **One call, one increment — because of how `Model.__init__` binds `step`.**  Take any hierarchy, construct an instance
+    (`__new__`, optionally a subclass `__init__` that assigns `self.step = f` before `super().__init__()`, then
+    `Model.__init__`: `self._user_step = self.step; self.step = self._wrapped_step`), and let the program do anything that
+    does not re-bind the name `step` on the instance — calls with any arguments, returning normally or leaving with an
+    exception (a `TypeError` of the class chain, a `RuntimeError` raised by user code), assignments to `_user_step`.  Then the next `model.step(*args)` finds the wrapper in the instance `__dict__`, advances `steps` by
+    exactly one, the wrapper stays in place, and `steps` equals the number of calls made so far. -/
+theorem C05_increments_exactly_once (h : Hier) (stopAt : Nat) (pre : Option Nat) (ops : List BOp)
+    (hops : ∀ op ∈ ops, op.rebindsStep = false) (args : List Int) :
+    let o := (Obj.construct h stopAt pre).run ops
+    (o.call args).obj.inst.steps = o.inst.steps + 1 ∧
+    (o.call args).obj.dictStep = some .wrapper ∧
+    o.inst.steps = (ops.filter (·.isCall)).length := by
+  have hc := construct_wrapped h stopAt pre
+  obtain ⟨h1, h2⟩ := run_keeps_wrapper _ hc.1 ops hops
+  have := call_wrapped_steps _ h1 args
+  exact ⟨this.1, this.2.1, by rw [h2, hc.2.1]; simp⟩
 
-/-- The increment happens before any user code: every body that runs during the call sees the
-    already incremented counter. -/
-theorem C05_increment_before_user_code (i : Inst) (args : List Int) :
-    ∀ e ∈ (callStep i args).2.1, e.steps = i.steps + 1 :=
-  runChain_steps _ _ _ _
+/-- The increment happens before any user code: everything that runs during the call — the step bodies of the class
+    chain, or the function the program supplied as `step` / `_user_step` — sees the already incremented counter. -/
+theorem C05_increment_before_user_code (h : Hier) (stopAt : Nat) (pre : Option Nat) (ops : List BOp)
+    (hops : ∀ op ∈ ops, op.rebindsStep = false) (args : List Int) :
+    let o := (Obj.construct h stopAt pre).run ops
+    (∀ e ∈ (o.call args).entries, e.steps = o.inst.steps + 1) ∧ (∀ c ∈ (o.call args).fns, c.steps = o.inst.steps + 1) := by
+  have hc := construct_wrapped h stopAt pre
+  obtain ⟨h1, _⟩ := run_keeps_wrapper _ hc.1 ops hops
+  have := call_wrapped_steps _ h1 args
+  exact ⟨this.2.2.2.1, this.2.2.2.2⟩
+
+/-- What the wrapper delegates to is what the lookup `self.step` found when `Model.__init__` ran: without an instance
+    attribute the class's own `step` — then the call is exactly `callStep` of the chain model below, whose theorems say
+    which bodies run —, and a function assigned before `super().__init__()` otherwise (called once, arguments unchanged,
+    no class body runs). -/
+theorem C05_wrapper_delegates_to_step_captured_at_init (h : Hier) (stopAt : Nat) (pre : Option Nat) (ops : List BOp)
+    (h1 : ∀ op ∈ ops, op.rebindsStep = false) (h2 : ∀ op ∈ ops, ∀ f, op ≠ .setUser f) (args : List Int) :
+    let o := (Obj.construct h stopAt pre).run ops
+    (pre = none → (o.call args).entries = (callStep o.inst args).2.1 ∧ (o.call args).ok = (callStep o.inst args).2.2 ∧
+        (o.call args).obj.inst = (callStep o.inst args).1 ∧ (o.call args).fns = []) ∧
+    (∀ f, pre = some f → (o.call args).entries = [] ∧ (o.call args).fns = [⟨f, o.inst.steps + 1, args⟩] ∧
+        (o.call args).ok = !raisesFn f) := by
+  have hc := construct_wrapped h stopAt pre
+  obtain ⟨hw, _⟩ := run_keeps_wrapper _ hc.1 ops h1
+  have hu := run_userStep_of_no_setUser _ hc.1 ops h1 h2
+  rw [hc.2.2] at hu
+  refine ⟨fun hp => ?_, fun f hp => ?_⟩
+  · subst hp
+    exact call_wrapped_chain _ hw hu args
+  · subst hp
+    exact call_wrapped_fn _ hw f hu args
+
+/-- **What the code does when the program re-binds `step` on the instance** (`model.step = f`, `del model.step`): the
+    wrapper is gone for good and the counter stands still — the counter counts exactly the calls made while the
+    wrapper was still the instance's `step`.  (The property speaks of `step` defined on classes; this is the boundary.) -/
+theorem C05_rebinding_step_on_the_instance_stops_the_counter (h : Hier) (stopAt : Nat) (pre : Option Nat)
+    (before : List BOp) (op : BOp) (after : List BOp)
+    (hb : ∀ x ∈ before, x.rebindsStep = false) (hop : op.rebindsStep = true) :
+    ((Obj.construct h stopAt pre).run (before ++ op :: after)).inst.steps = (before.filter (·.isCall)).length ∧
+    ((Obj.construct h stopAt pre).run (before ++ op :: after)).dictStep ≠ some .wrapper := by
+  have hc := construct_wrapped h stopAt pre
+  obtain ⟨_, h2⟩ := run_keeps_wrapper _ hc.1 before hb
+  have e : (Obj.construct h stopAt pre).run (before ++ op :: after)
+      = ((((Obj.construct h stopAt pre).run before).apply op).run after) := by
+    rw [Obj.run_append]; rfl
+  have hgone : (((Obj.construct h stopAt pre).run before).apply op).dictStep ≠ some .wrapper ∧
+      (((Obj.construct h stopAt pre).run before).apply op).inst.steps = ((Obj.construct h stopAt pre).run before).inst.steps := by
+    cases op with
+    | call args => simp [BOp.rebindsStep] at hop
+    | setUser f => simp [BOp.rebindsStep] at hop
+    | assign f => simp [Obj.apply]
+    | del => simp [Obj.apply]
+  obtain ⟨r1, r2⟩ := run_unwrapped _ hgone.1 after
+  rw [e]
+  exact ⟨by rw [r2, hgone.2, h2, hc.2.1]; simp, r1⟩
+
+/-- non-vacuity: a two-level chain, the base level overriding `step`; a function assigned before `Model.__init__`; re-binding -/
+example : ((Obj.construct [⟨false, false, false⟩, ⟨true, false, true⟩] 9 none).call [4]).entries = [⟨1, 1, [4]⟩] := by decide
+example : ((Obj.construct [] 9 (some 50)).call []).ok = false ∧ ((Obj.construct [] 9 (some 50)).call []).obj.inst.steps = 1 := by decide
+example : ((Obj.construct [⟨true, true, false⟩] 9 (some 3)).call [4]).fns = [⟨3, 1, [4]⟩] ∧
+    ((Obj.construct [⟨true, true, false⟩] 9 (some 3)).call [4]).entries = [] := by decide
+example : (((Obj.construct [⟨true, false, false⟩] 9 none).run [.call [], .assign 2, .call [], .del, .call []]).inst.steps = 1) ∧
+    (((Obj.construct [⟨true, false, false⟩] 9 none).run [.call [], .assign 2]).call []).fns = [⟨2, 1, []⟩] ∧
+    (((Obj.construct [⟨true, false, false⟩] 9 none).run [.call [], .del]).call []).entries = [⟨0, 1, []⟩] := by decide
+
+/-! ### the class chain (`callStep` = the wrapper delegating to the class's `step`, the case of the theorem above) -/
 
 /-- The user bodies that run are an initial segment of the levels that define `step`, in MRO
     order, each at most once; the wrapper itself is never re-entered (there is exactly one
-    increment, `C05_increments_exactly_once`). -/
+    increment: `callStep` is the wrapper of `C05_increments_exactly_once`). -/
 theorem C05_bodies_are_override_chain (i : Inst) (args : List Int) :
     ((callStep i args).2.1.map (·.depth)) <+: overriding i.hier 0 ∧
     ((callStep i args).2.1.map (·.depth)).Pairwise (· < ·) := by
   have h := runChain_prefix i.hier 0 args (i.steps + 1)
   exact ⟨h, (overriding_sorted i.hier 0).sublist h.sublist⟩
+
+/-- **Exactly which bodies run** (lower and upper bound at once, for every hierarchy and every argument list): of the
+    levels that define `step`, in MRO order, take those in front of the first one that cannot accept the arguments
+    (`def step(self)` reached with arguments); the bodies that run are these up to and including the first that does not
+    call `super().step(...)` — each of them, each once, each seeing the incremented counter and the caller's arguments;
+    the call raises `TypeError` iff there are arguments and every body that ran called super. -/
+theorem C05_bodies_are_exactly_the_super_chain (i : Inst) (args : List Int) :
+    let good := (ovLevels i.hier 0).takeWhile (fun p => args.isEmpty || p.2.takesArgs)
+    let n := (good.takeWhile (fun p => p.2.callsSuper)).length
+    (callStep i args).2.1 = (good.take (n + 1)).map (fun p => ⟨p.1, i.steps + 1, args⟩) ∧
+    (callStep i args).2.2 = (args.isEmpty || decide (n < good.length)) ∧
+    (ovLevels i.hier 0).map (·.1) = overriding i.hier 0 ∧
+    ∀ p ∈ ovLevels i.hier 0, i.hier[p.1]? = some p.2 ∧ p.2.overrides = true := by
+  have h := runChain_eq_chainSpec i.hier 0 args (i.steps + 1)
+  refine ⟨?_, ?_, ovLevels_depths _ _, fun p hp => ?_⟩
+  · show (runChain i.hier 0 args (i.steps + 1)).1 = _
+    rw [h]; rfl
+  · show (runChain i.hier 0 args (i.steps + 1)).2 = _
+    rw [h]; rfl
+  · have := ovLevels_get i.hier 0 p hp
+    exact ⟨by simpa using this.2.1, this.2.2⟩
+
+/-- non-vacuity: three overriding levels, the middle one `def step(self)`: with an argument only the first body runs and the
+    call raises; without arguments all three run -/
+example : (callStep (Inst.new [⟨true, true, true⟩, ⟨true, true, false⟩, ⟨true, false, true⟩] 9) [4]).2 = ([⟨0, 1, [4]⟩], false) := by decide
+example : ((callStep (Inst.new [⟨true, true, true⟩, ⟨true, true, false⟩, ⟨true, false, true⟩] 9) []).2.1.map (·.depth)) = [0, 1, 2] := by
+  decide
 
 /-- A call without arguments never raises, and if some level defines `step` the most derived
     such level runs first (inherited from an intermediate base class or overridden directly). -/
@@ -94,6 +195,18 @@ theorem C05_run_model_exact (f : Nat) (i i' : Inst) (es : List Entry) (h : runMo
   obtain ⟨k, h1, h2, h3⟩ := runModel_spec f i i' es h
   exact ⟨k, h1, h2, h3, by rw [h1, stepN_steps]⟩
 
+/-- `run_model` is nothing but `k` ordinary `step()` calls made one after the other: the final state is that of `k` calls, the
+    records it leaves are the records of those `k` calls in order (the j-th call's bodies see `steps + j`), `running` was true
+    before each call and is false after the last, and the counter advanced by exactly `k`. -/
+theorem C05_run_model_is_k_step_calls (f : Nat) (i i' : Inst) (es : List Entry) (h : runModel f i = some (i', es)) :
+    ∃ k, i' = stepN k i ∧ es = entriesN k i ∧ i'.running = false ∧ (∀ j, j < k → (stepN j i).running = true) ∧
+      i'.steps = i.steps + k ∧ ∀ e ∈ es, i.steps + 1 ≤ e.steps ∧ e.steps ≤ i.steps + k := by
+  obtain ⟨k, h1, h1e, h2, h3⟩ := runModel_entries f i i' es h
+  exact ⟨k, h1, h1e, h2, h3, by rw [h1, stepN_steps], by rw [h1e]; exact entriesN_steps k i⟩
+
+example : runModel 10 (Inst.new [⟨true, false, false⟩] 3) =
+    some (stepN 3 (Inst.new [⟨true, false, false⟩] 3), [⟨0, 1, []⟩, ⟨0, 2, []⟩, ⟨0, 3, []⟩]) := by decide
+
 /-- …and it does return whenever some level's step body takes part in the stop rule. -/
 theorem C05_run_model_terminates (i : Inst) (h : ∃ L ∈ i.hier, L.overrides = true) :
     ∃ f, (runModel f i).isSome = true := by
@@ -126,6 +239,38 @@ theorem C05_all_interleavings_count (ops : List Op) (hnr : ∀ op ∈ ops, op.is
       simp only [run, List.foldl_cons] at this ⊢
       rw [this, h1]
       cases hs : op.isStepOn j <;> simp [hs] <;> omega
+
+/-- **The history of one model is its own operations** (all interleavings, `run_model` included): what instance `j` is after
+    any interleaving of `step` / `run_model` / re-arm / halt operations on any number of coexisting instances is what it
+    would be had only the operations on `j` been performed, in the same order — the operations on other models, however
+    many and wherever interleaved, are invisible to it (counter, `running`, stop rule and all). -/
+theorem C05_instance_history_is_its_own_ops (ops : List Op) (w : List Inst) (j : Nat) :
+    (run w ops)[j]? = (run w (ops.filter (fun op => op.target == j)))[j]? := by
+  have key : ∀ (ops : List Op) (w w' : List Inst), w[j]? = w'[j]? →
+      (run w ops)[j]? = (run w' (ops.filter (fun op => op.target == j)))[j]? := by
+    intro ops
+    induction ops with
+    | nil => intro w w' h; simpa [run] using h
+    | cons op ops ih =>
+      intro w w' h
+      by_cases ht : op.target = j
+      · have hf : (op :: ops).filter (fun op => op.target == j) = op :: ops.filter (fun op => op.target == j) := by
+          simp [ht]
+        rw [hf]
+        simp only [run, List.foldl_cons]
+        apply ih
+        subst ht
+        exact apply_local w w' op h
+      · have hf : (op :: ops).filter (fun op => op.target == j) = ops.filter (fun op => op.target == j) := by
+          simp [ht]
+        rw [hf]
+        simp only [run, List.foldl_cons]
+        apply ih
+        rw [apply_frame w op j ht]; exact h
+  exact key ops w w rfl
+
+example : (run [Inst.new [⟨true, false, false⟩] 2, Inst.new [] 9] [.step 0 [], .step 1 [], .run 0 5, .step 1 [3], .halt 1, .step 0 []])[0]?.map
+    (fun i => (i.steps, i.running)) = some (3, false) := by decide
 
 /-! ## multiple inheritance: the MRO is the C3 linearisation -/
 
@@ -230,7 +375,7 @@ theorem C05_nested_calls_are_ordinary_calls (links : List (Option Nat)) (f : Nat
     refine ⟨x, hx1, hx2, fun e he => ?_⟩
     have : c.entries = (callStep x c.args).2.1 := by rw [hx2]
     rw [this] at he
-    exact C05_increment_before_user_code x c.args e he
+    exact runChain_steps _ _ _ _ e he
   · show (stepNested links f w i args).1[j]?.map (·.steps) = _
     rw [h1]
     have hcount := C05_all_interleavings_count ((stepNested links f w i args).2.map Call.toOp)
@@ -304,5 +449,29 @@ example :
 example :
     (([[], [1, 0], [0, 1]].foldlM (fun (T : Table) b => T.define b) Table.init).map fun T => (T.labels 2, T.labels 3)) = some ([2, 1], [3]) ∧
     [[0], [0, 1]].foldlM (fun (T : Table) b => T.define b) Table.init = none := by decide
+
+/-- **The nesting fuel is immaterial** (it is a device of the model, not of the code): when links only point to instances
+    created later — what the generator and the driver enforce; Python would raise `RecursionError` on a cycle — any two
+    fuels at least the number of instances (the driver uses one more) give the same run; and with that fuel no nested call
+    is dropped: a call on an instance whose bodies step instance `j` comprises, besides itself, at least one call per body
+    that ran. -/
+theorem C05_nested_fuel_is_immaterial (links : List (Option Nat)) (hf : Forward links) (w : List Inst) (i : Nat)
+    (args : List Int) :
+    (∀ f f', w.length ≤ f → w.length ≤ f' → stepNested links f w i args = stepNested links f' w i args) ∧
+    (∀ f j x, w[i]? = some x → links[i]?.join = some j → j < w.length →
+      1 + (callStep x args).2.1.length ≤ (stepNested links (f + 2) w i args).2.length) :=
+  ⟨fun f f' h1 h2 => stepNested_fuel links hf f f' w i args (by omega) (by omega),
+   fun f j x hx hl hj => stepNested_calls_ge links f w i j args x hx hl hj⟩
+
+/-- non-vacuity: model 0 (two bodies) steps model 1 (one body), which steps model 2: five calls, whatever the fuel ≥ 3 -/
+example : (stepNested [some 1, some 2, none] 3
+      [Inst.new [⟨true, true, false⟩, ⟨true, false, false⟩] 9, Inst.new [⟨true, false, false⟩] 9, Inst.new [] 9] 0 []).2.map (·.inst)
+    = [0, 1, 2, 1, 2] ∧ Forward [some 1, some 2, none] := by
+  refine ⟨by decide, fun i j h => ?_⟩
+  match i, h with
+  | 0, h => simp at h; omega
+  | 1, h => simp at h; omega
+  | 2, h => simp at h
+  | n + 3, h => simp at h
 
 end Mesa.Steps
